@@ -35,4 +35,12 @@ PROPS = {
                  "net/http header writing (httptest recorder keeps Location verbatim)"],
         assumptions=["request paths as the router sees them start with '/' (net/http rejects other request targets)"],
     ),
+    "C06": dict(
+        n_quick=5000, n_thorough=200000, incoq=150,
+        level_text="Theorems C06_* (Props/C06.v) hold for every finite handler program over WriteHeader/Write/Flush/Before/After/JSON/String/Blob/Stream/NoContent/Redirect (incl. partial writes), by an invariant over all op sequences: one header write, Committed <-> headers sent, reported status/size = sent, late status writes ignored, hook order. The model is compared with echo.Response after every op of generated programs.",
+        technique="Coq invariant proof by induction over operation sequences + differential correspondence after every step",
+        trusted=["net/http ResponseWriter contract (first WriteHeader wins; Write/Flush imply 200) as implemented by the harness's recording writer",
+                 "hooks are observers (a hook that itself writes re-enters Write; out of scope as the property excludes direct field assignment)"],
+        assumptions=["context helpers modelled: JSON/JSONPretty (preset + one serializer write), String/Blob/Stream (WriteHeader + Write), NoContent, Redirect; XML/JSONP helpers are not modelled"],
+    ),
 }
